@@ -86,6 +86,11 @@ def columns_provenance(ctx):
             neg = e.under(T.cmp('not in', col, e.f[1]))
             if arg(e, 1) == col and neg:
                 ok_ins = True
+    # the same written out (a loop over a literal list is evaluated as the statements it abbreviates)
+    done = {arg(e, 1)[1] for e in ins if arg(e, 1) is not None and arg(e, 1)[0] == 'c' and arg(e, 0) == C(0)
+            and e.under(T.cmp('not in', arg(e, 1), T.unmut(e.f[1])))} if ins else set()
+    if {'bin1_id', 'bin2_id'} <= done:
+        ok_ins = True
     ctx.check(ok_ins, R, 'id-columns-inserted', ctx.where(fa),
               found='insert under "col not in columns" for each of [bin1_id, bin2_id]' if ok_ins else 'missing',
               expected='columns.insert(0, col) for col in [bin1_id, bin2_id] if col not in columns',
